@@ -28,7 +28,7 @@ m = {
               "baseline_off_cmd": "cd /repo && /venv/bin/python -m pytest -ra -q -p no:cacheprovider --timeout=900 --continue-on-collection-errors",
               "source_commits": [], "add_only": True},
     "engines": [{"name": "pyvc", "path": "pyvc/", "serves_properties": [c["property_id"] for c in checks],
-                 "kind_free_text": "contract-based deductive verifier built here: VC generator over the Python ast of the real /repo source (re-read on every run), sidecar contracts in contracts/, obligations discharged by z3 5.1 (cvc5 / z3 4.8 cross-check in the thorough tier); bounded stand-ins run the same executable contracts natively and are labelled bounded"}],
+                 "kind_free_text": "contract-based deductive verifier built here: VC generator over the Python ast of the real /repo source (re-read on every run), sidecar contracts in contracts/, obligations discharged by z3 5.1, with /usr/bin/cvc5 1.0 as second back end for what z3 leaves unknown (cvc5 / z3 4.8 cross-check of everything in the thorough tier); bounded stand-ins run the same executable contracts natively and are labelled bounded"}],
     "checks": checks,
     "not_applicable": na,
     "notes": "exit codes: 0 held, 1 violation (VIOLATION line), 2 undecided (contract no longer attaches, no failing input found), 3 checker error. Known findings: known_findings.jsonl.",
